@@ -165,6 +165,8 @@ def run(db, chk) -> None:
                     else:
                         srcs, unknown_parts = [sctx], []
                     okb = all(isinstance(p, tuple) and len(p) == 3 and p[0] == TRr for p in srcs) and not unknown_parts
+                    if unknown_parts and all(p[0] == TRr for p in srcs if isinstance(p, tuple) and len(p) == 3):
+                        okb = None          # a piece of the concatenation that is not a row selection of a frame (an expression the evaluator did not follow): not understood, not foreign
                     chk.ob(rule, f"{tag} correlation ids are collected from THIS rank's rows only", okb, where, found=[T.show(p[0]) if isinstance(p, tuple) else str(p) for p in srcs] + unknown_parts,
                            accepted=T.show(TRr), why="ids carried over from a rank processed earlier add pairs that are not launches on this rank")
                     names, notes, bad = set(), [], False
@@ -183,6 +185,8 @@ def run(db, chk) -> None:
                             names |= n
                     want = LAUNCH | (MEMORY if mem else set())
                     verdict = (names == want and not notes) if bad is False else (False if bad == "truthy" or notes else None)
+                    if unknown_parts and verdict is False and bad != "truthy" and not notes and names < want:
+                        verdict = None          # (names missing because a piece was not understood)
                     chk.ob(rule, f"{tag} launch-name set", verdict, where, found=sorted(names) + notes, accepted=sorted(want),
                            why="kernel launches, plus memcpy/memset launches exactly when requested; ids looked up with default None and not filtered by truthiness")
                 else:
